@@ -200,20 +200,21 @@ Section Chain.
 
   Theorem chain_value_matched fuel e v log :
     is_value v ->
-    sw_loop (S (S (S fuel))) var false tabs e T (pre ++ v) 0 0 log
+    sw_loop (S (S (S fuel))) var false tabs e T [2] (pre ++ v) 0 0 log
     = Ok (true, 2, String.length (pre ++ v), log).
   Proof.
     intros Hv. destruct Hv as [Hin Hne].
     pose proof (chain_strdom v (or_introl Hin)) as Hpw.
     pose proof (length_pos v (Hnonempty v Hin)) as Lv.
-    rewrite (fixed_piece_consumed var _ false tabs e T (pre ++ v) 0 [(ipre, 1)] 0 ipre pre 1 log
+    rewrite (fixed_piece_consumed var _ false tabs e T [2] (pre ++ v) 0 [(ipre, 1)] 0 ipre pre 1 log
                Hvar Hpw chain_mlit0 chain_state0_unique chain_pre_in (assocN_single_same ipre 1)).
     - cbn [Nat.add].
-      apply (fixed_value_recognised var fuel tabs e T (pre ++ v) 1 st1 (String.length pre) v 2 log
+      apply (fixed_value_recognised var fuel tabs e T [2] (pre ++ v) 1 st1 (String.length pre) v 2 log
                Hvar Hpw chain_sorted chain_mlit1).
       + apply sdrop_app.
       + rewrite length_append. lia.
       + apply chain_first_enabled. now split.
+      + apply orb_true_r.
     - cbn [sdrop]. apply prefix_app.
     - rewrite length_append. lia.
   Qed.
@@ -227,7 +228,7 @@ Section Chain.
   Qed.
 
   Theorem chain_subword_matches e v log :
-    is_value v -> subword_matches var tabs e T (pre ++ v) log = Ok (true, log).
+    is_value v -> subword_matches var tabs e T [2] (pre ++ v) log = Ok (true, log).
   Proof.
     intros Hv. unfold subword_matches, subword_matches_from.
     destruct (sw_fuel_ge3 (pre ++ v)) as [f ->].
@@ -247,13 +248,15 @@ Section Chain.
   Proof. reflexivity. Qed.
   Lemma chain_subword_tables : subword_tables (a_subwords tabs) 0 = Some T.
   Proof. reflexivity. Qed.
+  Lemma chain_sub_accepting : sub_accepting tabs 0 = [2].
+  Proof. reflexivity. Qed.
 
   Lemma chain_walk_value e v :
     is_value v -> walk var tabs e 0 [(pre ++ v)%string] [] = Ok (Some 1, []).
   Proof.
     intros Hv. cbn [walk].
     rewrite chain_main_mlit0, chain_subtrans0, chain_sub_row. cbn [obind].
-    rewrite chain_assoc_of. cbn [top_sub_loop]. rewrite chain_subword_tables.
+    rewrite chain_assoc_of. cbn [top_sub_loop]. rewrite chain_subword_tables, chain_sub_accepting.
     rewrite (chain_subword_matches e v [] Hv). cbn [obind]. reflexivity.
   Qed.
 
@@ -352,12 +355,12 @@ Section Chain.
       set (k := (count_entries (t_mlit T) + match t_mcmd T with Some l => count_entries l | None => 0 end)%nat).
       pose proof (length_pos pre pre_nonempty). rewrite length_append.
       destruct (S (String.length pre + String.length p) * S k)%nat as [|f] eqn:E; try lia. now exists f. }
-    rewrite (fixed_piece_consumed var _ true tabs e T (pre ++ p) 0 [(ipre, 1)] 0 ipre pre 1 log
+    rewrite (fixed_piece_consumed var _ true tabs e T [] (pre ++ p) 0 [(ipre, 1)] 0 ipre pre 1 log
                Hvar Hpw chain_mlit0 chain_state0_unique chain_pre_in (assocN_single_same ipre 1)).
     2:{ cbn [sdrop]. apply prefix_app. }
     2:{ rewrite length_append. pose proof (length_pos pre pre_nonempty). lia. }
     cbn [Nat.add].
-    destruct (fixed_partial_stops var f tabs e T (pre ++ p) 1 st1 (String.length pre) log
+    destruct (fixed_partial_stops var f tabs e T [] (pre ++ p) 1 st1 (String.length pre) log
                 Hvar Hpw chain_sorted chain_mlit1) as [m Hm].
     { rewrite sdrop_app. destruct (value_index v Hv) as [id Hid].
       exists id, v, 2. repeat split; try assumption.
